@@ -134,6 +134,58 @@ func c14(r *engine.Report, p *engine.Program) {
 		} else {
 			r.Broken("type StatusFileData not found")
 		}
+		// a modification callback works on the record it is given: it never replaces ExtraData
+		// wholesale by something captured from outside (a snapshot taken before the lock was held)
+		{
+			exF := p.Field("workceptor", "StatusFileData", "ExtraData")
+			var bad []string
+			nCb := 0
+			p.AllInstrs(func(fn *ssa.Function, in ssa.Instruction) {
+				if engine.IsMock(fn) || !inPkg(fn, "workceptor") {
+					return
+				}
+				ci, isCall := in.(ssa.CallInstruction)
+				if !isCall {
+					return
+				}
+				o := engine.CalleeObj(ci.Common())
+				if o == nil || o.Name() != "UpdateFullStatus" {
+					return
+				}
+				args := ci.Common().Args
+				mc, isMC := args[len(args)-1].(*ssa.MakeClosure)
+				if !isMC {
+					return
+				}
+				cb := mc.Fn.(*ssa.Function)
+				nCb++
+				for _, a := range engine.FieldAccessesIn(cb, exF) {
+					st, isS := a.Instr.(*ssa.Store)
+					if !isS || a.Kind != engine.AccStore {
+						continue
+					}
+					v := engine.Unwrap(st.Val)
+					if engine.IsNilConst(v) {
+						continue
+					}
+					fresh := false
+					switch x := v.(type) {
+					case *ssa.Alloc:
+						fresh = true
+					case *ssa.MakeInterface:
+						if _, isAl := engine.Unwrap(x.X).(*ssa.Alloc); isAl {
+							fresh = true
+						}
+					}
+					if !fresh {
+						bad = append(bad, engine.FuncName(cb)+" at "+p.Pos(st.Pos()))
+					}
+				}
+			})
+			r.Check("R3-read-modify-write", "UpdateFullStatus callbacks: ExtraData is modified in place, never replaced by a captured snapshot", token.NoPos, len(bad) == 0 && nCb >= 5,
+				fmt.Sprintf("%d callbacks; a store to status.ExtraData is nil or a freshly allocated value", nCb),
+				"a callback assigns status.ExtraData from outside the re-read record in "+strings.Join(bad, ", ")+": the update discards what it has just re-read and writes back an older snapshot (other writers' fields are wiped although both locks are held)")
+		}
 		// every I/O step of the three status-file primitives reports its failure: an update that could
 		// not be read back, positioned, truncated or written must not look like a successful update
 		{
